@@ -2,6 +2,7 @@ package props
 
 import (
 	"fmt"
+	"go/token"
 	"go/types"
 	"sort"
 	"strings"
@@ -71,6 +72,8 @@ func runC12(c *core.Ctx) {
 	ps := loadPDUs(c)
 	ownDecodeRules(c, a, ps, "C12-DECODE")
 	ownEncodeRules(c, a, "C12-ENCODE")
+	c.MinInstances("C12-STORAGE", 100)
+	storageRules(c, ps, "C12-STORAGE")
 	poolRules(c)
 	apiInventory(c, a)
 	// positive fixture through an overlay
@@ -336,4 +339,208 @@ func apiInventory(c *core.Ctx, a *aliasAnalysis) {
 	sort.Strings(views)
 	c.Note("exported functions whose []byte result may be a view of an argument/receiver (documented views; their callers are covered by the DECODE/ENCODE rules): %s", strings.Join(uniq(views), ", "))
 	c.Count("view_returning_functions", len(uniq(views)))
+}
+
+// rootsOf follows a slice value back through re-slicing, conversions, phis and append chains to the values it may be
+// carved from.
+func rootsOf(v ssa.Value, seen map[ssa.Value]bool, out *[]ssa.Value) {
+	if v == nil || seen[v] {
+		return
+	}
+	seen[v] = true
+	switch x := v.(type) {
+	case *ssa.Slice:
+		rootsOf(x.X, seen, out)
+	case *ssa.ChangeType:
+		rootsOf(x.X, seen, out)
+	case *ssa.Phi:
+		for _, e := range x.Edges {
+			rootsOf(e, seen, out)
+		}
+	case *ssa.Call:
+		if b, ok := x.Call.Value.(*ssa.Builtin); ok && b.Name() == "append" {
+			rootsOf(x.Call.Args[0], seen, out)
+			return
+		}
+		*out = append(*out, v)
+	default:
+		*out = append(*out, v)
+	}
+}
+
+// receiverField: v is a load of a field (possibly nested, possibly an element) of memory reachable from recv.
+func receiverField(v ssa.Value, recv ssa.Value) (*types.Var, bool) {
+	u, ok := v.(*ssa.UnOp)
+	if !ok || u.Op != token.MUL {
+		return nil, false
+	}
+	addr := u.X
+	var field *types.Var
+	for i := 0; i < 8; i++ {
+		switch a := addr.(type) {
+		case *ssa.FieldAddr:
+			if _, f, ok := fieldOfAddr(a); ok && field == nil {
+				field = f
+			}
+			addr = a.X
+		case *ssa.IndexAddr:
+			addr = a.X
+		case *ssa.UnOp:
+			addr = a.X
+		default:
+			if addr == recv && field != nil {
+				return field, true
+			}
+			return nil, false
+		}
+	}
+	return nil, false
+}
+
+// storageRules: three ownership rules that the origin analysis does not express.
+//   - REUSE (decoders): an IDecode must not truncate a slice held in its receiver and then grow or store it again
+//     (`p.L = p.L[:0]` followed by append): the array was handed out by the previous decode of the same value.
+//   - PURE (encoders): an IEncode must not append to (or copy into) a slice held in its receiver: spare capacity
+//     behind a caller's []byte - possibly a previous decode result - would be overwritten.
+//   - DISJOINT (splitters): every part appended to a [][]byte result inside a loop is built on storage allocated in
+//     that iteration (or capped by a three-index slice), so that parts never share spare capacity.
+func storageRules(c *core.Ctx, ps *pduSet, rule string) {
+	for _, p := range ps.list {
+		for _, side := range []string{"IDecode", "IEncode"} {
+			fn := c.Prog.SSAFunc(p.Methods[side])
+			if fn == nil || len(fn.Params) == 0 {
+				continue
+			}
+			recv := ssa.Value(fn.Params[0])
+			key := p.Key() + "." + side + "#storage"
+			var bad []string
+			for _, b := range fn.Blocks {
+				for _, ins := range b.Instrs {
+					switch x := ins.(type) {
+					case *ssa.Slice:
+						if side != "IDecode" {
+							continue
+						}
+						f, ok := receiverField(x.X, recv)
+						if !ok {
+							continue
+						}
+						if _, isSlice := x.X.Type().Underlying().(*types.Slice); !isSlice {
+							continue
+						}
+						// is the re-sliced value stored back into the receiver or grown?
+						reused := false
+						if x.Referrers() != nil {
+							for _, r := range *x.Referrers() {
+								switch y := r.(type) {
+								case *ssa.Store:
+									if y.Val == ssa.Value(x) {
+										reused = true
+									}
+								case *ssa.Call:
+									if bi, ok := y.Call.Value.(*ssa.Builtin); ok && bi.Name() == "append" && y.Call.Args[0] == ssa.Value(x) {
+										reused = true
+									}
+								case *ssa.Phi:
+									reused = true
+								}
+							}
+						}
+						if reused {
+							bad = append(bad, "field "+f.Name()+" is re-sliced and reused at "+c.Prog.Pos(x.Pos())+": a second decode into the same value overwrites the slice handed out by the first")
+						}
+					case *ssa.Call:
+						if side != "IEncode" {
+							continue
+						}
+						bi, ok := x.Call.Value.(*ssa.Builtin)
+						if !ok || (bi.Name() != "append" && bi.Name() != "copy") {
+							continue
+						}
+						var roots []ssa.Value
+						rootsOf(x.Call.Args[0], map[ssa.Value]bool{}, &roots)
+						for _, r := range roots {
+							if f, ok := receiverField(r, recv); ok {
+								bad = append(bad, bi.Name()+" at "+c.Prog.Pos(x.Pos())+" writes into the storage of field "+f.Name()+": encoding modifies memory the caller owns (spare capacity behind the slice)")
+							}
+						}
+					}
+				}
+			}
+			c.Decide(len(bad) == 0, rule, key, c.Prog.Pos(fn.Pos()), "no reuse of / write into slices held by the receiver", strings.Join(uniq(bad), "; "))
+		}
+	}
+	// DISJOINT
+	for fn := range ssaFunctions(c.Prog) {
+		if fn.Pkg == nil || !load.InModule(fn.Pkg.Pkg) {
+			continue
+		}
+		res := fn.Signature.Results()
+		returns2D := false
+		for i := 0; i < res.Len(); i++ {
+			if res.At(i).Type().String() == "[][]byte" {
+				returns2D = true
+			}
+		}
+		if !returns2D {
+			continue
+		}
+		var bad []string
+		n := 0
+		for _, b := range fn.Blocks {
+			if !inLoop(b) {
+				continue
+			}
+			for _, ins := range b.Instrs {
+				call, ok := ins.(*ssa.Call)
+				if !ok {
+					continue
+				}
+				bi, ok := call.Call.Value.(*ssa.Builtin)
+				if !ok || bi.Name() != "append" || call.Type().String() != "[][]byte" || len(call.Call.Args) != 2 {
+					continue
+				}
+				// the appended element(s): a one-element literal
+				sl, ok := call.Call.Args[1].(*ssa.Slice)
+				if !ok {
+					continue
+				}
+				al, ok := sl.X.(*ssa.Alloc)
+				if !ok {
+					continue
+				}
+				for _, elem := range arrayStores(al) {
+					if elem == nil {
+						continue
+					}
+					n++
+					if s3, ok := elem.(*ssa.Slice); ok && s3.Max != nil {
+						continue // capacity capped
+					}
+					var roots []ssa.Value
+					rootsOf(elem, map[ssa.Value]bool{}, &roots)
+					for _, r := range roots {
+						ri, isInstr := r.(ssa.Instruction)
+						fresh := false
+						switch r.(type) {
+						case *ssa.MakeSlice, *ssa.Alloc:
+							fresh = isInstr && inLoop(ri.Block())
+						case *ssa.Const:
+							fresh = true // nil base: append allocates
+						case *ssa.Call:
+							fresh = isInstr && inLoop(ri.Block()) // result of a call made in this iteration (codec output, conversion)
+						case *ssa.Convert:
+							fresh = true
+						}
+						if !fresh {
+							bad = append(bad, "a part appended at "+c.Prog.Pos(call.Pos())+" is carved from storage shared across iterations ("+role(plain, r)+"): the spare capacity of one part overlaps the next")
+						}
+					}
+				}
+			}
+		}
+		if n > 0 {
+			c.Decide(len(bad) == 0, rule, funcKey(fn)+"#disjoint", c.Prog.Pos(fn.Pos()), fmt.Sprintf("%d part appends: each part built on storage of its own iteration", n), strings.Join(uniq(bad), "; "))
+		}
+	}
 }
